@@ -120,7 +120,7 @@ def body(ctx):
     n = 40 if ctx.quick else 600
     for j in range(n):
         spec = scen.gen_session(rng, j, big=(j % 9 == 0), adversarial=False)
-        spec['frag'] = rng.choice(['random', 'bytes1', 'empty']) if j % 9 else 'random'
+        spec['frag'] = (rng.choice(['random', 'bytes1', 'empty']) if j % 5 else 'poll') if j % 9 else 'random'
         mode = ('sync', 'async')[j % 2]
         spec['rtype'] = RTYPES[(j // 2) % len(RTYPES)]
         rr = scen.run(spec, mode, log_io=True)
